@@ -12,6 +12,12 @@ Theorem C10_started_calls_answered : forall (tr : list action) (c : nat) (k : N)
 Proof. exact started_calls_answered. Qed.
 Print Assumptions C10_started_calls_answered.
 
+(* The property as worded: a handler that started while the server had not been told to stop, on a connection the
+   client did not leave, has its reply on the wire once `stopped` has resolved. *)
+Theorem C10_started_before_stop_answered : forall (pre post : list action) (c : nat) (k : N) (x : conn), sig (run init pre) = false -> effective (run init pre) (Conn c (CStart k)) = true -> let tr := pre ++ Conn c (CStart k) :: post in s_resolved (run init tr) = true -> nth_error (s_conns (run init tr)) c = Some x -> c_closed x = false -> In k (c_wire x).
+Proof. exact started_before_stop_answered. Qed.
+Print Assumptions C10_started_before_stop_answered.
+
 (* `stopped` can only resolve when start_inner has returned and, for every connection, its task has ended, its
    completion token is dropped, its send task is finished with an empty queue, and (client still there) no call is pending. *)
 Theorem C10_stopped_after_all : forall tr : list action, effective (run init tr) StoppedResolves = true -> s_accept (run init tr) = ADone /\ Forall (fun x => c_phase x = PDone /\ c_tok x = false /\ c_writer x = WFin /\ c_queue x = [] /\ (c_closed x = false -> c_tasks x = [])) (s_conns (run init tr)).
